@@ -25,7 +25,7 @@ fn spec_cmp(sa: bool, a: u32, b: u32, sc: bool, c: u32, d: u32) -> Ordering {
     }
 }
 
-// @h prop=C07 tier=quick unwind=8 timeout=300 mem=8
+// @h prop=C07 tier=quick unwind=8 timeout=1200 mem=10
 #[cfg_attr(kani, kani::proof)]
 pub fn cmp_full() {
     let (a, b, c, d) = (any_u32(), any_u32(), any_u32(), any_u32());
@@ -49,7 +49,7 @@ pub fn cmp_full() {
 
 use crate::number::big_number::verif_bn::{bn_i, bn_v, m_add, m_div, m_gcd16, m_gcd_contract, m_mul, m_new1, m_rem, m_sub, ref_gcd, GCD_LOG};
 
-// @h prop=C07 unwind=8 timeout=120 what=partial_cmp_is_None_iff_a_NaN_is_involved(both_NaN_encodings)
+// @h prop=C07 unwind=8 timeout=600 what=partial_cmp_is_None_iff_a_NaN_is_involved(both_NaN_encodings)
 #[cfg_attr(kani, kani::proof)]
 pub fn cmp_nan() {
     let (a, b, c, d) = (any_u32(), any_u32(), any_u32(), any_u32());
@@ -85,7 +85,7 @@ pub fn cmp_2limb_int() {
 }
 
 // vacuity twin (must FAIL)
-// @h prop=C07 unwind=8 timeout=300 kind=twin
+// @h prop=C07 unwind=8 timeout=900 kind=twin
 #[cfg_attr(kani, kani::proof)]
 pub fn twin_cmp() {
     let (a, c) = (any_u32(), any_u32());
@@ -260,7 +260,7 @@ pub fn num_optimize_wide() {
     std::mem::forget(r);
 }
 
-// @h prop=C06 unwind=8 timeout=300 what=flip(reciprocal;0->NaN;sign_on_numerator),neg,minus,is_pos,is_nan;one-limb_values
+// @h prop=C06 unwind=8 timeout=900 what=flip(reciprocal;0->NaN;sign_on_numerator),neg,minus,is_pos,is_nan;one-limb_values
 #[cfg_attr(kani, kani::proof)]
 pub fn flip_neg_ispos() {
     let (n, d, pos) = (any_u32(), any_u32(), any_bool());
@@ -292,7 +292,7 @@ pub fn flip_neg_ispos() {
     std::mem::forget((x, f, m, m2, m3));
 }
 
-// @h prop=C06 unwind=8 timeout=300 what=floor_of_non-negative_values:integer_path_real,fraction_path_over_modelled_div
+// @h prop=C06 unwind=8 timeout=900 what=floor_of_non-negative_values:integer_path_real,fraction_path_over_modelled_div
 #[cfg_attr(kani, kani::proof)]
 #[cfg_attr(kani, kani::stub(BigNum::div, m_div))]
 pub fn floor_nonneg() {
@@ -308,7 +308,7 @@ pub fn floor_nonneg() {
     std::mem::forget((x, f));
 }
 
-// @h prop=C06 unwind=8 timeout=300 what=NaN(1/0_and_-1/0)_absorbs_add/mul_on_either_side;flip/neg/minus_of_NaN_are_NaN;is_pos_false
+// @h prop=C06 unwind=8 timeout=900 what=NaN(1/0_and_-1/0)_absorbs_add/mul_on_either_side;flip/neg/minus_of_NaN_are_NaN;is_pos_false
 #[cfg_attr(kani, kani::proof)]
 #[cfg_attr(kani, kani::stub(BigNum::add, m_add))]
 #[cfg_attr(kani, kani::stub(BigNum::mul, m_mul))]
